@@ -234,10 +234,35 @@ def cases(rng, tier, seed):
                 sc = rng.random() < 0.3
                 ps = gen_ps(rng, 1 if sc else rng.randint(1, 4), True)
                 tok, build, meta = gen_operand(rng, kind, ua, len(ps))
+                near = opn in OPS_CMP and rng.random() < 0.6
                 if kind == 'time':   # force the unit pair
                     meta['unit'] = ub
+                    if near:   # equal / off-by-one-picosecond instants in another unit
+                        meta['ps'] = [psa + rng.choice([0, 0, 1, -1]) for psa in (ps if not meta['scalar'] else ps[:1])]
                     tok = tok_T(ub, meta['scalar'], meta['ps'])
                     build = (lambda m=meta: mk_T(m['unit'], m['scalar'], m['ps']))
+                elif near:
+                    # bare numbers that denote (almost) the same instants as `self`: a comparison must
+                    # then behave exactly like the constructor's rounding, also beyond 2^53 ps
+                    f = FACTOR[ua]
+                    if kind in ('pyint', 'list', 'int32', 'int64'):
+                        vs = [p_ // f + rng.choice([0, 0, 1, -1]) for p_ in ps]
+                        if kind == 'int32':
+                            vs = [max(-2**31, min(2**31 - 1, v)) for v in vs]
+                    else:
+                        vs = [float(Fr(p_) / f) + rng.choice([0, 0.4, -0.4, 0.6, -0.6, 1, 0.5, 1e-3]) / f for p_ in ps]
+                        if kind == 'mixedlist' and len(vs) > 1:
+                            vs[0] = int(ps[0] // f)
+                    if kind in ('pyint', 'pyfloat'):
+                        vs = vs[:1]
+                        meta.update(scalar=True, vals=vs)
+                        tok = 'N:1:' + tok_num(vs[0])
+                        build = (lambda v=vs[0]: v)
+                    else:
+                        meta.update(scalar=False, vals=vs)
+                        tok = 'N:0:' + ','.join(tok_num(v) for v in vs)
+                        dt = {'int32': np.int32, 'int64': np.int64, 'float64': np.float64}.get(kind)
+                        build = (lambda v=vs, dt=dt: list(v) if dt is None else np.array(v, dtype=dt))
                 meta.update(op=opn, self=(ua, sc, ps))
                 fn = OPS_AR.get(opn) or OPS_CMP[opn]
                 canon = canon_T if opn in OPS_AR else canon_B
@@ -247,8 +272,10 @@ def cases(rng, tier, seed):
                 out.append(Case('C01 binop %s %s %s' % (opn, tok_T(ua, sc, ps), tok), impl,
                                 'binop/%s/%s' % (opn, kind), meta=meta, nontrivial=any(ps)))
     # --- reductions and convert_unit
-    for _ in range(150 * n):
+    for it in range(150 * n):
         u, sc, ps = gen_T(rng, big=False)
+        if it % 2:   # large magnitudes with picosecond detail (n <= 4 values below 2^60: the sum stays below 2^62)
+            ps = [rng.choice([-1, 1]) * rng.choice([2**53 + 1, 2**60 + 1, 777777777777777777, rng.randint(2**53, 2**60)]) for _ in ps[:4]]
         for r in ('min', 'max', 'sum', 'ptp'):
             impl = call(lambda: 'ok ' + canon_T(getattr(mk_T(u, sc, ps), r)()))
             out.append(Case('C01 reduce %s %s' % (r, tok_T(u, sc, ps)), impl, 'reduce/' + r,
@@ -276,13 +303,17 @@ def parse_T(s):
 
 
 def exp_ps_num(v, unit):
-    """(lo, hi) Fraction bounds allowed by the property for a bare number v read in `unit`"""
+    """(lo, hi): the whole-picosecond payloads the property allows for a bare number v read in
+    `unit`: integers exactly v*factor; floats the whole picosecond(s) nearest to the binary64
+    product fl(v*factor) (computed here by the hardware, not by the Lean model; both neighbours
+    are allowed on an exact tie)"""
     f = FACTOR[unit]
     if isinstance(v, int):
         return Fr(v * f), Fr(v * f)
-    x = Fr(v) * f
-    slack = Fr(1, 2) + abs(x) / 2**53
-    return x - slack, x + slack
+    y = Fr(float(v) * float(f))
+    lo = -((-(y - Fr(1, 2))).__floor__())     # ceil(y - 1/2)
+    hi = (y + Fr(1, 2)).__floor__()           # floor(y + 1/2)
+    return Fr(lo), Fr(hi)
 
 
 def broadcast(a, sa, b, sb):
@@ -390,7 +421,15 @@ def check_case(c):
         return fail('shape', 'comparison shape wrong')
     f = OPS_CMP[op]
     for (a, lo), (_, hi), got in zip(pairs_lo, pairs_hi, bits):
-        w1, w2 = f(Fr(a), lo), f(Fr(a), hi)
+        if op == 'eq':   # decided only when the whole allowed interval agrees
+            if lo == hi:
+                w1 = w2 = (Fr(a) == lo)
+            elif Fr(a) < lo or Fr(a) > hi:
+                w1 = w2 = False
+            else:
+                continue
+        else:
+            w1, w2 = f(Fr(a), lo), f(Fr(a), hi)
         if w1 == w2 and got != w1:
             return fail('value', 'comparison %s of %d ps with [%s,%s] gave %s' % (op, a, lo, hi, got))
     return None
